@@ -3,7 +3,7 @@ from __future__ import annotations
 import ast, math
 import z3
 from .sym import *
-from .engine import Engine, SymRaise, Unsupported, Abort, ReturnEx, TT
+from .engine import Engine, SymRaise, Unsupported, Abort, ReturnEx, ContinueEx, BreakEx, TT
 from . import libspec as L
 from .extract import extract
 
@@ -211,22 +211,33 @@ class Interp:
         else:
             raise Unsupported(f"assign target {type(t).__name__}")
 
+    def st_Continue(self, s, env): raise ContinueEx()
+
+    def st_Break(self, s, env): raise BreakEx()
+
+    def loop_body(self, s, env):
+        """one iteration of a loop body; `continue` ends the iteration (the rest of the body is skipped, nothing else)"""
+        try:
+            self.exec_block(s.body, env)
+        except ContinueEx:
+            pass
+
     def st_For(self, s, env):
         it = self.eval(s.iter, env)
         ordinal = self.loop_counter.get(id(s), -1)
-        if isinstance(it, (list, tuple)):
-            for x in it:
+        if s.orelse: raise Unsupported("for ... else")
+        concrete = None
+        if isinstance(it, (list, tuple)): concrete = list(it)
+        elif isinstance(it, SDict): concrete = list(it.d.keys())
+        elif isinstance(it, SRange) and not z3.is_expr(it.lo) and not z3.is_expr(it.hi):
+            concrete = [PyNum(z3.IntVal(x)) for x in range(it.lo, it.hi)]
+        if concrete is not None:
+            for x in concrete:
                 self.assign(s.target, x, env)
-                self.exec_block(s.body, env)
-            return
-        if isinstance(it, SDict):
-            for x in list(it.d.keys()):
-                self.assign(s.target, x, env)
-                self.exec_block(s.body, env)
-            return
-        if isinstance(it, SRange) and not z3.is_expr(it.lo) and not z3.is_expr(it.hi):
-            for x in range(it.lo, it.hi):
-                self.assign(s.target, PyNum(z3.IntVal(x)), env); self.exec_block(s.body, env)
+                try:
+                    self.loop_body(s, env)
+                except BreakEx:
+                    break
             return
         spec = self.loop_specs.get(ordinal)
         if spec is None:
@@ -281,7 +292,10 @@ class Interp:
             if isinstance(it, SList) and it.guard is not None and not eng.decide(it.guard(i)):
                 pass            # filtered out: the iteration does not happen
             else:
-                self.exec_block(s.body, env)
+                try:
+                    self.loop_body(s, env)
+                except BreakEx:
+                    raise Unsupported("break inside a loop under an invariant")
             vn, lemn = split(view(i + 1))
             for var, want in vn.items():
                 if isinstance(want, Havoc):
@@ -1525,6 +1539,8 @@ class Interp:
         if isinstance(x, ExplU): x = self.resolve(x)
         cname = cls.name if isinstance(cls, (ClassRef, Builtin)) else None
         if cname is None: raise Unsupported(f"isinstance class {cls!r}")
+        # branching on whether a model value is "no value" or a quantity uses its content (ghost read-set, C08 completeness)
+        if isinstance(x, Expl) and cname in KIND_CLASS.values(): self.note_read(x)
         if cname in ("numbers.Number",):
             return isinstance(x, PyNum) or isinstance(x, bool)
         if cname in ("Quantity",): return isinstance(x, Qty)
